@@ -93,10 +93,8 @@ class ParallelMovPattern(RewritePattern):
         # this is typed as Attribute to ensure we can index by input type
         output_index = {register: idx for idx, register in enumerate(dst_types)}
 
-        src_type_by_src = {
-            src: src_type
-            for src, src_type in zip(srcs, op.input_widths.iter_values(), strict=True)
-        }
+        # the width of a move belongs to the move, i.e. to its output register
+        width_by_dst = dict(zip(dst_types, op.input_widths.iter_values(), strict=True))
 
         # We have a graph with nodes as registers and directed edges as moves,
         # pointing from source to destination.
@@ -143,7 +141,7 @@ class ParallelMovPattern(RewritePattern):
             # Iterate up the tree by traversing back edges.
             while dst_type in src_by_dst_type:
                 src = src_by_dst_type[dst_type]
-                mvop = _insert_mv_op(rewriter, src, dst_type, src_type_by_src[src])
+                mvop = _insert_mv_op(rewriter, src, dst_type, width_by_dst[dst_type])
                 # sanity check since we should only have 1 result per output
                 assert results[output_index[dst_type]] is None
                 results[output_index[dst_type]] = mvop.results[0]
@@ -205,7 +203,8 @@ class ParallelMovPattern(RewritePattern):
                 dst_type = cur_input.type
                 while dst_type != cur_output.type:
                     src = src_by_dst_type[dst_type]
-                    mvop = _insert_mv_op(rewriter, src, dst_type, src_type_by_src[src])
+                    width = width_by_dst[dst_type]
+                    mvop = _insert_mv_op(rewriter, src, dst_type, width)
                     results[output_index[dst_type]] = mvop.results[0]
                     dst_type = src.type
                 # finish the split mov
